@@ -13,7 +13,7 @@ host's own machine key is key `0`.
 * `tokfault <f>` / `authfault <f>`     f = `-` | `tr` | `bad` | `st:<status>:<oe>`
 * `inval` | `clear` | `offline` | `nextcheck`
 * `plant <id> <blob>`                  overwrite the cached credential of the row (if any)
-* `lookup <id>`                        reply `look <some:v:c|none> <net> <nx> <row> <evs>`
+* `lookup <id>`                        reply `look <some|none> <net> <nx> <row> <evs>`
 * `auth <id> <cred>`                   reply `auth <init> <path> <step|-> <net> <row> <evs>`
 * `init <slot> <id>`                   reply `init <init> <path> <net> <row> <evs>`
 * `step <slot> <cred> <id>`            reply `step <res> <path> <net> <row> <evs>`
@@ -157,7 +157,7 @@ def handle (d : DState) (line : String) : DState × String :=
       match apply d (.lookup id) with
       | (d', .look t, evs) =>
         let ts := match t with
-          | some t => s!"some:{showBool t.valid}:{showBool t.cred.isSome}"
+          | some _ => "some"
           | none => "none"
         (d', s!"look {ts} {showNet d'.st.net} {showBool (d'.st.nx id)} {showRow d'.st id} {showEvs evs}")
       | (d', _, _) => (d', "bad-op")
